@@ -223,13 +223,14 @@ def insertSegAt (w : Word) (pos : SegPos) (seg : Seg) (mods : Option Modifiers) 
       match mods with
       | none => pure (w1, pos.increment w1, b)
       | some m =>
-        -- `res_word.apply_seg_mods(alphas, m, pos, ..)` indexes `syllables[pos.syll_index]`, which is out of range here
-        match w1.sylls[pos.si]? with
+        -- `pos` is past the end of the word: the modifiers apply where the segment went, at the end of the last syllable
+        let tgt : SegPos := { si := w1.sylls.length - 1, gi := last.segs.length }
+        match w1.sylls[tgt.si]? with
         | none => .panic "insert: Word::apply_seg_mods: syllables[start_pos.syll_index]"
         | some σ => do
-          let (σ', al, lc) ← σ.applySegMods b.alphas m pos.gi
+          let (σ', al, lc) ← σ.applySegMods b.alphas m tgt.gi
           let pos1 : SegPos := if lc > 0 then { pos with gi := wadd pos.gi lc.toNat } else pos
-          let w2 := setSyll w1 pos.si σ'
+          let w2 := setSyll w1 tgt.si σ'
           pure (w2, pos1.increment w2, { b with alphas := al })
 
 /-- insert a whole syllable `ins` at `pos` (subrule.rs:1103-1135 / 1807-1837): the `Structure` arm -/
